@@ -174,6 +174,11 @@ func RunConfChange(tier string, deadline time.Time) *Report {
 		}
 		push(cfg, prs, refmodel.NewConf([]uint64{uint64(v)}, nil))
 	}
+	{
+		// the empty configuration a tracker starts with (bootstrap): its voter set is allocated but empty
+		trk := tracker.MakeProgressTracker(4, 0)
+		push(trk.Config, trk.Progress, refmodel.NewConf(nil, nil))
+	}
 	type op struct {
 		kind      int // 0 simple, 1 enter joint, 2 leave joint
 		autoLeave bool
@@ -278,7 +283,7 @@ func RunConfChange(tier string, deadline time.Time) *Report {
 			push(cfg, prs, ref)
 		}
 	}
-	r.Domains = append(r.Domains, fmt.Sprintf("closure of configurations over ids 1..%d from every single-voter configuration under Simple/EnterJoint(autoLeave t,f)/LeaveJoint with every change sequence of length <= %d over {add,learner,remove,update} x {0..%d}", universe, maxLen, universe))
+	r.Domains = append(r.Domains, fmt.Sprintf("closure of configurations over ids 1..%d from the empty (bootstrap) configuration and every single-voter configuration under Simple/EnterJoint(autoLeave t,f)/LeaveJoint with every change sequence of length <= %d over {add,learner,remove,update} x {0..%d}", universe, maxLen, universe))
 	if len(r.Samples) == 0 && len(queue) > 0 {
 		r.Samples = append(r.Samples, cfgString(queue[len(queue)-1].cfg, queue[len(queue)-1].prs))
 	}
